@@ -12,7 +12,7 @@ CONSTANTS
   PendingIsWouldBlock = TRUE
   MidResumes = TRUE
   FinalFlush = TRUE
-  FixNativeClose = FALSE
+  CloseFlushes = TRUE
   FixRustlsHsFlush = FALSE
 SPECIFICATION FairSpec
 PROPERTIES HandshakeCompletes CloseCompletes
